@@ -161,8 +161,9 @@ class Report:
         code = 0
         for ob in self.obs:
             if ob.known is not None:
-                out.append("KNOWN-FINDING: property=%s %s [%s %s] %s:%s %s" % (
-                    self.pid, ob.known.get("what", ob.detail), ob.rule, ob.func, ob.file, ob.line, ob.construct[:100]))
+                out.append("KNOWN-FINDING: property=%s [%s] %s (%s in %s, %s:%s)" % (
+                    self.pid, ob.known.get("id"), " ".join(str(ob.known.get("what", ob.detail)).split())[:260],
+                    ob.rule, ob.func.split("quara.")[-1], ob.file, ob.line))
         for k in known:
             if k.get("id") not in used_known:
                 out.append("NOTE: known finding %s (%s %s) no longer fires on this tree" % (k.get("id"), k.get("rule"), k.get("function")))
